@@ -152,6 +152,13 @@ type UndeleteBlobCommand struct {
 // FinishDeleteCommand finalizes the deletion of one or more blobs.
 type FinishDeleteCommand struct {
 	Blobs []core.BlobID
+
+	// Cutoff is the time (unix nanos) that the scan which selected Blobs
+	// compared deletion and expiry times against. The command is applied some
+	// time after the scan, so each blob is checked again when the command is
+	// applied: a blob that was undeleted (or whose expiry was extended) in
+	// between is kept. Zero means "no check" (entries logged by older versions).
+	Cutoff int64
 }
 
 // SetMetadataCommand changes metadata for a blob.
